@@ -42,6 +42,7 @@ def main():
         return 0
     say("init", True)
     nsub = sp.get("nsub", 1)
+    kept = []           # like a recorder that logs or queues its failures: the exceptions stay alive until after close
     for i, (g0, n) in enumerate(sp["writes"]):
         g = np.arange(g0, g0 + n, dtype=np.int64)
         a = val(g, sp["dtype"]).astype(sp["dtype"])
@@ -60,6 +61,7 @@ def main():
                 time.sleep(sp["sleep_ms"] / 1000.0)
         except BaseException as e:  # noqa
             say("write%d" % i, False, repr(e)[:200])
+            kept.append(e)
     mark("begin-close")
     try:
         w.close()
